@@ -69,7 +69,11 @@ def coq_build(ctx):
     lock = open(os.path.join(COQ, ".build.lock"), "w")
     fcntl.flock(lock, fcntl.LOCK_EX)
     try:
-        if not os.path.exists(os.path.join(COQ, "Makefile")):
+        files = sorted(f for f in os.listdir(COQ) if f.endswith(".v"))
+        proj = "-R . Verif\n" + "\n".join(files) + "\n"
+        pp = os.path.join(COQ, "_CoqProject")
+        if not os.path.exists(pp) or open(pp).read() != proj or not os.path.exists(os.path.join(COQ, "Makefile")):
+            open(pp, "w").write(proj)
             rc, out = run(["coq_makefile", "-f", "_CoqProject", "-o", "Makefile"], cwd=COQ)
             if rc != 0:
                 return False, out
@@ -175,6 +179,23 @@ def eval_shards(ctx, files, parse=None):
                 failures.append((f, "unparsed mismatch output: " + body[:2000]))
             mism.extend(items)
     return mism, failures
+
+
+def prune_shards(files, keep=()):
+    """case shards are large; once evaluated only the ones that failed to evaluate are kept"""
+    for f in files:
+        if f in keep:
+            continue
+        base = f[:-2]
+        for ext in (".v", ".vo", ".vok", ".vos", ".glob"):
+            try:
+                os.remove(base + ext)
+            except OSError:
+                pass
+        try:
+            os.remove(os.path.join(os.path.dirname(f), "." + os.path.basename(base) + ".aux"))
+        except OSError:
+            pass
 
 
 # ---------------------------------------------------------------- findings, replays, evidence
